@@ -78,6 +78,12 @@ def check_gate(case, env, acc):
         acc.violation("heralded_gate_leaks_outside_qubit_subspace", cc, {"amp": leak, "at": leak_at})
     if not np.allclose(G, np.diag(np.diag(G))) or n > 1 or abs(abs(G[1, 1] / G[0, 0]) - 1) < 1e-12:
         acc.nontriv(label)
+    # the gate object handed on: plain and frozen copies are the same gate
+    for how, cp in (("copy", circ.copy()), ("frozen_copy", circ.copy(freeze_parameters=True))):
+        acc.tick("executions"); acc.tick("transitions")
+        A2, leak2, _ = rq.circuit_gate_matrix(cp, n)
+        if np.abs(A2 - A).max() > TOL or cp.heralds != circ.heralds:
+            acc.violation("copy_of_gate_is_another_gate", {**cc, "how": how}, {"max_diff": float(np.abs(A2 - A).max())})
     acc.outcome("%dq:s2=%.4f" % (n, s2_want))
     acc.sample({"gate": label, "basis_inputs": 2 ** n, "target": "literal matrix, big-endian"}, limit=3)
 
